@@ -35,6 +35,14 @@ for rel, tree in sorted(trees.items()):
                                   for x in ast.walk(tg)
                                   if isinstance(x, ast.Name)})
         t['__functions__'] = sorted(q for q, _ in alpha.outer_functions(tree))
+        t['__calls__'] = {
+            q: sorted({(c.func.attr if isinstance(c.func, ast.Attribute)
+                        else c.func.id) for c in ast.walk(fn)
+                       if isinstance(c, ast.Call) and isinstance(
+                           c.func, (ast.Attribute, ast.Name)) and
+                       (c.func.attr if isinstance(c.func, ast.Attribute)
+                        else c.func.id).startswith('_')})
+            for q, fn in alpha.outer_functions(tree)}
         t['__params__'] = {q: alpha.param_list(fn)
                            for q, fn in alpha.outer_functions(tree)}
         out[rel] = t
